@@ -440,6 +440,9 @@ def _run(rep, pid, tier):
     import cbmccheck
     cb_handle = cbmccheck.start(["intervals"])       # symbolic tie of rtr_check_interval_option to applyIv, every input
     proved = vlib.prove(rep, MODULES, THEOREMS, extra_targets=["constdriver"])
+    import cfuncheck
+    if pid in cfuncheck.LINKS and pid in cfuncheck.ENABLED:
+        cfuncheck.link(rep, pid)     # translation tie: the C text of the small functions = the model, for every input
     if proved and tier == "thorough":
         ok, log = vlib.leanchecker(MODULES[0])
         rep.cov["leanchecker"] = "ok" if ok else "FAILED"
